@@ -6,6 +6,7 @@ use std::fmt::Write as _;
 use std::io::{BufRead, BufReader, BufWriter, Write};
 use std::panic::{AssertUnwindSafe, catch_unwind};
 
+mod cache;
 mod groups;
 
 fn classify(msg: &str) -> &'static str {
